@@ -564,9 +564,12 @@ Qed.
 (** the prefix handling of int(s, 16): an optional 0x / 0X and one optional '_' after it *)
 Definition strip_0x (r : str) : str :=
   match r with
-  | (48 :: x :: t)%N => if N.eqb x 120 || N.eqb x 88
-                        then match t with (95 :: t')%N => t' | _ => t end
-                        else r
+  | z :: x :: t => if N.eqb z 48 && (N.eqb x 120 || N.eqb x 88)
+                   then match t with
+                        | [] => t
+                        | u :: t' => if N.eqb u 95 then t' else t
+                        end
+                   else r
   | _ => r
   end.
 
